@@ -116,6 +116,9 @@ type Violation struct {
 	Rule   string `json:"rule"`
 	Detail string `json:"detail"`
 	Step   int    `json:"step"`
+	// Keys names the state entries the violation is about (view differences), so that a block
+	// can tell whether they are entries two of its requests changed at the same instant
+	Keys []string `json:"keys,omitempty"`
 }
 
 func (o *Outcome) viol(prop, rule, format string, a ...any) {
